@@ -439,6 +439,29 @@ func (c *fnctx) stmts(list []ast.Stmt, rest string) string {
 			}
 		}
 	}
+	if ok && pre == "inline-closure" {
+		// `f(func() T { body; return v })` as a statement: the body runs in place (the callee only
+		// adds locking); a trailing return of the literal is dropped.  Opt-in by SHint.
+		if es, isE := s.(*ast.ExprStmt); isE {
+			if call, isC := es.X.(*ast.CallExpr); isC && len(call.Args) == 1 {
+				if fl, isF := call.Args[0].(*ast.FuncLit); isF && len(fl.Type.Params.List) == 0 {
+					body := append([]ast.Stmt(nil), fl.Body.List...)
+					if n := len(body); n > 0 {
+						if _, isR := body[n-1].(*ast.ReturnStmt); isR {
+							body = body[:n-1]
+						}
+					}
+					for _, b := range body {
+						if _, isR := b.(*ast.ReturnStmt); isR {
+							failf("%s: inline-closure: return inside the closure body of %q", c.t.pos(s), c.tg.Func)
+						}
+					}
+					return c.stmts(append(body, list[1:]...), rest)
+				}
+			}
+		}
+		failf("%s: inline-closure hint on a statement that is not a call with one parameterless func literal: %q", c.t.pos(s), stext)
+	}
 	if ok {
 		if pre == "" {
 			return tail()
